@@ -12,7 +12,8 @@ getuid/geteuid of every registered object after the step) and decides whether pr
            asked; the new uid is the answer ("NONAME" for a non-string) with euid 0, or - answer = backbone uid and
            the creator has an euid - uid = euid = the creator's euid.  Without a creator_file call only
            reload_object (uid kept, euid 0) and the late initialisation of an object whose creation the master
-           aborted (uid "NONAME", euid 0) may announce an object.
+           aborted (uid "NONAME", euid 0) may announce an object - and a destruct of the master by an actor that has an
+           euid (or is the master) announces the reloaded master with uid = euid (set_master).
   noeuid   an actor other than the master whose euid is 0 at that moment causes no creator_file call (nothing is
            created on its behalf) and no compile_object call (no virtual object is made or handed out for it) -
            also when the actor is itself an object under construction running its create()
@@ -90,7 +91,12 @@ def madeOk (bb : Option Name) (P : List Obj) (r : StepRec) (c : Creation) : Bool
        | none => false) ||
       ((match r.op with
         | .load _ => true
-        | _ => false) && decide (m.uid = some "NONAME") && decide (m.euid = none))
+        | _ => false) && decide (m.uid = some "NONAME") && decide (m.euid = none)) ||
+      -- destruct of the master: the driver loads a new one for the caller (who needs an euid) and makes it root
+      (decide (r.op = .dest masterOid) && decide (m.oid = masterOid) && m.uid.isSome && decide (m.euid = m.uid) &&
+        (match getO P r.actor with
+         | some A => decide (r.actor = masterOid) || A.euid.isSome
+         | none => false))
 
 def creationClause (bb : Option Name) (P : List Obj) (r : StepRec) : Bool :=
   r.creations.all (madeOk bb P r)
